@@ -111,35 +111,83 @@ pub fn any_m<S: Src>(s: &mut S) -> M {
     M { kind, cell, src, dst }
 }
 
-/// Move-kind groups used for case splits.
+/// Move-kind groups used for case splits (constant at symbolic-execution time).
+/// king .. castling partition the non-null moves of the side to move; `foreign` holds every tuple
+/// whose cell is empty or of the other colour (never semilegal); `null` is the null move.
 pub const KG_ANY: u8 = 0;
-pub const KG_SIMPLE_KING: u8 = 1; // Simple moved by a king
-pub const KG_SIMPLE_PAWN: u8 = 2; // Simple moved by a pawn
-pub const KG_SIMPLE_PIECE: u8 = 3; // Simple moved by N/B/R/Q
-pub const KG_PAWN_SPECIAL: u8 = 4; // double step + promotions
-pub const KG_EP: u8 = 5;
-pub const KG_CASTLING: u8 = 6;
-pub const KG_NULL: u8 = 7;
-pub const KG_SPECIAL: u8 = 8; // everything but Simple by N/B/R/Q (quick tier union)
-pub const KG_SIMPLE_SLIDER: u8 = 9; // Simple moved by B/R/Q
-pub const KG_SIMPLE_KNIGHT: u8 = 10;
+pub const KG_KING: u8 = 1; // Simple moved by the king
+pub const KG_PAWN: u8 = 2; // Simple moved by a pawn
+pub const KG_KNIGHT: u8 = 3;
+pub const KG_BISHOP: u8 = 4;
+pub const KG_ROOK: u8 = 5;
+pub const KG_QUEEN: u8 = 6;
+pub const KG_PSPECIAL: u8 = 7; // double step + the four promotions
+pub const KG_EP: u8 = 8;
+pub const KG_CASTLING: u8 = 9;
+pub const KG_NULL: u8 = 10;
+pub const KG_FOREIGN: u8 = 11;
 
-pub fn in_group(m: M, g: u8) -> bool {
+/// membership of a tuple in a group, for the side to move `side` (0 white, 1 black)
+pub fn in_group(m: M, g: u8, side: u8) -> bool {
     let p = crate::spec::piece_of(m.cell);
+    let own = m.cell != 0 && crate::spec::color_of(m.cell) == side;
+    if g == KG_ANY {
+        return true;
+    }
+    if m.kind == K_NULL {
+        return g == KG_NULL;
+    }
+    if !own {
+        return g == KG_FOREIGN;
+    }
     match g {
-        KG_ANY => true,
-        KG_SIMPLE_KING => m.kind == K_SIMPLE && p == K,
-        KG_SIMPLE_PAWN => m.kind == K_SIMPLE && p == P,
-        KG_SIMPLE_PIECE => m.kind == K_SIMPLE && p != K && p != P,
-        KG_PAWN_SPECIAL => m.kind == K_DOUBLE || m.kind >= K_PN,
+        KG_KING => m.kind == K_SIMPLE && p == K,
+        KG_PAWN => m.kind == K_SIMPLE && p == P,
+        KG_KNIGHT => m.kind == K_SIMPLE && p == N,
+        KG_BISHOP => m.kind == K_SIMPLE && p == B,
+        KG_ROOK => m.kind == K_SIMPLE && p == R,
+        KG_QUEEN => m.kind == K_SIMPLE && p == Q,
+        // kinds that do not match the piece are never well-formed; they live in the group of their kind
+        KG_PSPECIAL => m.kind == K_DOUBLE || m.kind >= K_PN,
         KG_EP => m.kind == K_EP,
         KG_CASTLING => m.kind == K_OO || m.kind == K_OOO,
-        KG_NULL => m.kind == K_NULL,
-        KG_SPECIAL => !(m.kind == K_SIMPLE && p != K && p != P),
-        KG_SIMPLE_SLIDER => m.kind == K_SIMPLE && (p == B || p == R || p == Q),
-        KG_SIMPLE_KNIGHT => m.kind == K_SIMPLE && p == N,
         _ => false,
     }
+}
+
+/// every tuple of group KG for side SIDE, with as much of it constant as the group allows
+/// (this is what makes a case cheaper than the whole: dead branches fold away in symbolic execution)
+pub fn any_m_g<S: Src, const SIDE: u8, const KG: u8>(s: &mut S) -> M {
+    let own = |p: u8| crate::spec::mk(SIDE, p);
+    let src = s.below(64);
+    let dst = s.below(64);
+    let m = match KG {
+        KG_KING => M { kind: K_SIMPLE, cell: own(K), src, dst },
+        KG_PAWN => M { kind: K_SIMPLE, cell: own(P), src, dst },
+        KG_KNIGHT => M { kind: K_SIMPLE, cell: own(N), src, dst },
+        KG_BISHOP => M { kind: K_SIMPLE, cell: own(B), src, dst },
+        KG_ROOK => M { kind: K_SIMPLE, cell: own(R), src, dst },
+        KG_QUEEN => M { kind: K_SIMPLE, cell: own(Q), src, dst },
+        KG_EP => M { kind: K_EP, cell: own(s.below(6)), src, dst },
+        KG_CASTLING => M { kind: if s.bool() { K_OO } else { K_OOO }, cell: own(s.below(6)), src, dst },
+        KG_PSPECIAL => {
+            let k = s.below(5);
+            M { kind: if k == 0 { K_DOUBLE } else { K_PN + k - 1 }, cell: own(s.below(6)), src, dst }
+        }
+        KG_NULL => M { kind: K_NULL, cell: s.below(13), src, dst },
+        KG_FOREIGN => {
+            // empty cell or a man of the side not to move, any non-null kind
+            let c = s.below(7);
+            let cell = if c == 0 { 0 } else { crate::spec::mk(1 - SIDE, c - 1) };
+            M { kind: 1 + s.below(9), cell, src, dst }
+        }
+        _ => {
+            let kind = s.below(10);
+            let cell = s.below(13);
+            M { kind, cell, src, dst }
+        }
+    };
+    m
 }
 
 pub fn mv_of(m: M) -> Move {
